@@ -159,6 +159,55 @@ func checkC15(c *Ctx) {
 		})
 		return okAll && n > 0
 	}
+	// operations given as method values: MakeClosure of a bound-method wrapper handed to the
+	// queue; the wrapped method is then an operation body too
+	opFns := map[*ssa.Function]bool{}
+	for _, fn := range hubFns {
+		eng.EachInstr(fn, func(in ssa.Instruction) {
+			mc, ok := in.(*ssa.MakeClosure)
+			if !ok {
+				return
+			}
+			g, _ := mc.Fn.(*ssa.Function)
+			if g == nil || g.Parent() != nil {
+				return // function literals are handled by isOpClosure
+			}
+			okAll, n := true, 0
+			var uses func(v ssa.Value)
+			uses = func(v ssa.Value) {
+				for _, ref := range *v.Referrers() {
+					switch x := ref.(type) {
+					case *ssa.Send:
+						n++
+						if !eng.SameField(eng.LoadedField(x.Chan), fOp) {
+							okAll = false
+						}
+					case *ssa.Call:
+						n++
+						if !enqueuer[eng.StaticCallee(x.Common())] {
+							okAll = false
+						}
+					case *ssa.ChangeType:
+						uses(x)
+					case *ssa.DebugRef:
+					default:
+						okAll = false
+					}
+				}
+			}
+			uses(mc)
+			if okAll && n > 0 {
+				opFns[g] = true
+				eng.EachInstr(g, func(y ssa.Instruction) {
+					if call, ok := y.(*ssa.Call); ok {
+						if h := eng.StaticCallee(call.Common()); h != nil {
+							opFns[h] = true
+						}
+					}
+				})
+			}
+		})
+	}
 	nAcc := 0
 	badActor := map[string]string{}
 	for _, fn := range p.Funcs {
@@ -181,7 +230,7 @@ func checkC15(c *Ctx) {
 			nAcc++
 			// inside an operation closure, or in a helper that is only ever reached from
 			// operation closures (or the constructor)
-			okA, _ := p.OnlyReachedFrom(fn, func(g *ssa.Function) bool { return isOpClosure(g) || g == hubNew })
+			okA, _ := p.OnlyReachedFrom(fn, func(g *ssa.Function) bool { return isOpClosure(g) || opFns[g] || g == hubNew })
 			if !okA {
 				badActor["Hub."+f.Name()+"@"+shortFn(fn)] = p.InstrPos(in)
 			}
@@ -728,7 +777,18 @@ func (c *Ctx) c15RingWalks(hubFns []*ssa.Function) {
 					}
 					return len(eng.StoresToField([]*ssa.Function{fn}, f)) == 0
 				}
-				top, bottom := false, false
+				// where is the cursor compared with the start, and on which node (offset t of the
+				// compared node from the cursor: 0 = the cursor itself, 1 = cursor.Next())?
+				var inspections []ssa.Instruction
+				for _, nd := range nodes {
+					inspections = append(inspections, readsValue(nd)...)
+				}
+				type test struct {
+					t      int
+					bottom bool
+					known  bool
+				}
+				var tests []test
 				for _, nd := range nodes {
 					for _, ref := range *nd.Referrers() {
 						bo, ok := ref.(*ssa.BinOp)
@@ -742,38 +802,69 @@ func (c *Ctx) c15RingWalks(hubFns []*ssa.Function) {
 						if !sameStart(other) {
 							continue
 						}
+						tt := test{t: 1}
 						if nd == ssa.Value(phi) {
-							top = true
-						} else {
-							bottom = true
+							tt.t = 0
 						}
+						// placement relative to the inspections of the same iteration
+						before, after := true, true
+						for _, ins := range inspections {
+							if !blockDominates(bo.Block(), bo, ins) {
+								before = false
+							}
+							if !blockDominates(ins.Block(), ins, bo) {
+								after = false
+							}
+						}
+						switch {
+						case after && !before:
+							tt.bottom, tt.known = true, true
+						case before && !after:
+							tt.bottom, tt.known = false, true
+						}
+						tests = append(tests, tt)
 					}
 				}
 				startInspected := len(readsValue(S)) > 0
 				switch {
-				case bottom && !top && a == 0:
-					r.Ok("C15/HISTORY/full-cycle", cons, p.InstrPos(phi), "advance-then-test walk starting at the start node: N slots")
-				case top && !bottom && a == 1 && startInspected:
-					r.Ok("C15/HISTORY/full-cycle", cons, p.InstrPos(phi), "test-then-body walk from start.Next() with the start inspected separately: N slots")
-				case top && !bottom && a == 1:
-					r.Bad("C15/HISTORY/full-cycle", cons, p.InstrPos(phi), "the walk starts at start.Next() and stops as soon as the cursor equals the start, which is never inspected: N−1 of N slots; an entry sitting in the skipped slot is never found (a deleted message stays in the history replayed to new listeners)")
-				case top && !bottom && a == 0:
-					r.Bad("C15/HISTORY/full-cycle", cons, p.InstrPos(phi), "the walk tests `cursor == start` before the first step from the start itself: it inspects nothing")
-				case bottom && a == 1:
-					r.Bad("C15/HISTORY/full-cycle", cons, p.InstrPos(phi), "advance-then-test walk starting at start.Next(): N−1 of N slots")
-				case !top && !bottom:
+				case len(tests) == 0:
 					if c15CountedByLen(phi) {
 						r.Ok("C15/HISTORY/full-cycle", cons, p.InstrPos(phi), "counting loop bounded by Len()")
 					} else {
 						r.Undecided("C15/HISTORY/full-cycle", cons, p.InstrPos(phi), "ring walk whose termination is not a comparison of the cursor with its start nor a count up to Len(): completeness not decided")
 					}
+				case len(tests) > 1 || !tests[0].known:
+					r.Undecided("C15/HISTORY/full-cycle", cons, p.InstrPos(phi), "ring walk with more than one start test, or a test whose position relative to the inspection is not fixed: completeness not decided")
 				default:
-					r.Undecided("C15/HISTORY/full-cycle", cons, p.InstrPos(phi), "ring walk tests the cursor both before and after the step: completeness not decided")
+					tt := tests[0]
+					// with N slots, initial offset a and compared node at offset t: a bottom-tested
+					// walk makes N iterations iff a+t == 1; a top-tested walk never does (N-(a+t))
+					switch {
+					case tt.bottom && a+tt.t == 1:
+						r.Ok("C15/HISTORY/full-cycle", cons, p.InstrPos(phi), "inspect-then-test walk (start offset %d, tested node offset %d): N slots", a, tt.t)
+					case !tt.bottom && a+tt.t == 1 && startInspected:
+						r.Ok("C15/HISTORY/full-cycle", cons, p.InstrPos(phi), "test-then-inspect walk with the start inspected separately: N slots")
+					case tt.bottom && a+tt.t == 0:
+						r.Bad("C15/HISTORY/full-cycle", cons, p.InstrPos(phi), "the walk compares the cursor with the start right after inspecting the start itself: one slot of N")
+					case tt.bottom:
+						r.Bad("C15/HISTORY/full-cycle", cons, p.InstrPos(phi), "inspect-then-test walk with start offset %d and tested node offset %d: N−1 of N slots", a, tt.t)
+					case a+tt.t == 0:
+						r.Bad("C15/HISTORY/full-cycle", cons, p.InstrPos(phi), "the walk tests `cursor == start` before the first step from the start itself: it inspects nothing")
+					default:
+						r.Bad("C15/HISTORY/full-cycle", cons, p.InstrPos(phi), "the walk starts at start.Next() and stops as soon as the cursor equals the start, which is never inspected: N−1 of N slots; an entry sitting in the skipped slot is never found (a deleted message stays in the history replayed to new listeners)")
+					}
 				}
 			}
 		}
 	}
 	r.Floor("C15/HISTORY/full-cycle", "value-inspecting ring walks in pkg/msghub", n, 1)
+}
+
+// blockDominates: instruction x (in block bx) is executed before y on every path to y within
+// one iteration: x dominates y.
+func blockDominates(bx *ssa.BasicBlock, x, y ssa.Instruction) bool {
+	_ = bx
+	return eng.Dominates(x, y)
 }
 
 // c15CountedByLen: the loop of phi also has an integer induction variable compared with
